@@ -13,6 +13,9 @@ UC_DOM = [0, 1, 200, 255]            # unsigned char parameter values
 UC_OPS = [-1, 0, 200, 255, 256, 300]    # int operands, some outside the parameter type's range
 SH_DOM = [-5, 0, 7, 32767]             # short parameter values
 SH_OPS = [-40000, -5, 7, 32767, 70000]
+NAN = float('nan')
+DBL_DOM = [-1.0, 0.0, 1.5, NAN]      # double parameter values: the order is not total (NaN)
+DBL_OPS = [0.0, 1.5, NAN]
 PTR_DOM = ['null'] + [str(i) for i in range(-1, 4)]   # pointee values
 STRUCT_DOM = [(a, b) for a in (0, 1, 2) for b in (0, 1, 2)]
 
@@ -71,7 +74,10 @@ def cxx(t, dom):
     k = t.kind
     ty = {'int': 'int', 'str': 'std::string'}.get(dom)
     if k in REL:
-        opnd = t.var if t.var else '%d' % t.args[0]
+        if dom == 'dbl':
+            opnd = 'std::nan("")' if t.args[0] != t.args[0] else repr(float(t.args[0]))
+        else:
+            opnd = t.var if t.var else '%d' % t.args[0]
         if t.typed and dom == 'int':
             return 'trompeloeil::%s<int>(%s)' % (k, opnd)
         return 'trompeloeil::%s(%s)' % (k, opnd)
@@ -80,7 +86,7 @@ def cxx(t, dom):
     if k == 'wild':
         return 'trompeloeil::_'
     if k == 'any':
-        return {'int': 'ANY(int)', 'uc': 'ANY(unsigned char)', 'sh': 'ANY(short)', 'ptr': 'ANY(int*)', 'struct': 'ANY(S const&)', 'str': 'ANY(std::string const&)'}[dom]
+        return {'int': 'ANY(int)', 'uc': 'ANY(unsigned char)', 'sh': 'ANY(short)', 'dbl': 'ANY(double)', 'ptr': 'ANY(int*)', 'struct': 'ANY(S const&)', 'str': 'ANY(std::string const&)'}[dom]
     if k == 'not':
         return '!' + cxx(t.args[0], dom)
     if k in ('anyof', 'allof', 'noneof'):
@@ -193,6 +199,7 @@ HEADER = '''// generated by vlib/gen_match.py -- do not edit
 #include <string>
 #include <string_view>
 #include <cstring>
+#include <cmath>
 struct S { int a; int b; };
 struct MockC
 {
@@ -206,10 +213,12 @@ struct MockC
   MAKE_MOCK1(fsv, void(std::string_view));
   MAKE_MOCK1(fuc, void(unsigned char));
   MAKE_MOCK1(fsh, void(short));
+  MAKE_MOCK1(fd, void(double));
 };
 static int const INT_DOM[] = {-2, -1, 0, 1, 2, 3, 4};
 static unsigned char const UC_DOM[] = {0, 1, 200, 255};
 static short const SH_DOM[] = {-5, 0, 7, 32767};
+static double const DBL_DOM[] = {-1.0, 0.0, 1.5, std::nan("")};
 static char const* const STR_DOM[] = {"", "abc", "ABC", "xabcx", "b", "ab\\nabc"};
 template <typename F> static int called(F&& f) { G::reports().clear(); try { f(); return 1; } catch (Fatal const&) { return 0; } }
 '''
@@ -244,8 +253,8 @@ def emit_test_body(k, t, dom, e):
     if dom == 'int':
         L.append('  { auto m = %s; for (int i = 0; i < 7; ++i) { int x = INT_DOM[i]; G::out("r %d pm %%d %%d", i, trompeloeil::param_matches(m, std::ref(x)) ? 1 : 0); } }' % (e, k))
         L.append('  { MockC mk; ALLOW_CALL(mk, fi(%s)); for (int i = 0; i < 7; ++i) { int x = INT_DOM[i]; G::out("r %d call %%d %%d", i, called([&]{ mk.fi(x); })); } }' % (e, k))
-    elif dom in ('uc', 'sh'):
-        ct, arr, fnm = ('unsigned char', 'UC_DOM', 'fuc') if dom == 'uc' else ('short', 'SH_DOM', 'fsh')
+    elif dom in ('uc', 'sh', 'dbl'):
+        ct, arr, fnm = ('unsigned char', 'UC_DOM', 'fuc') if dom == 'uc' else ('short', 'SH_DOM', 'fsh') if dom == 'sh' else ('double', 'DBL_DOM', 'fd')
         L.append('  { auto m = %s; for (int i = 0; i < 4; ++i) { %s x = %s[i]; G::out("r %d pm %%d %%d", i, trompeloeil::param_matches(m, std::ref(x)) ? 1 : 0); } }' % (e, ct, arr, k))
         L.append('  { MockC mk; ALLOW_CALL(mk, %s(%s)); for (int i = 0; i < 4; ++i) { %s x = %s[i]; G::out("r %d call %%d %%d", i, called([&]{ mk.%s(x); })); } }' % (fnm, e, ct, arr, k, fnm))
     elif dom == 'ptr':
@@ -283,6 +292,8 @@ def domain_values(dom, mode):
         return UC_DOM
     if dom == 'sh':
         return SH_DOM
+    if dom == 'dbl':
+        return DBL_DOM
     if dom == 'ptr':
         return [None, -1, 0, 1, 2, 3]
     if dom == 'struct':
@@ -304,7 +315,7 @@ def strm_ok_for_cstr(t):
 
 def plan(tier, seed):
     rng = random.Random(seed * 9176 + 11)
-    n = dict(quick=dict(int=60, ptr=20, struct=16, str=16, uc=8, sh=8), thorough=dict(int=700, ptr=300, struct=250, str=250, uc=80, sh=80))[tier]
+    n = dict(quick=dict(int=60, ptr=20, struct=16, str=16, uc=8, sh=8, dbl=8), thorough=dict(int=700, ptr=300, struct=250, str=250, uc=80, sh=80, dbl=80))[tier]
     trees = []
     # fixed part: every relational matcher x every operand, combinators applied to them (exhaustive over the small domain)
     for rel in REL:
@@ -326,12 +337,16 @@ def plan(tier, seed):
             trees.append(('str', T('re', pat, flag)))
     fixed = len(trees)
     gens = {'int': gen_int, 'ptr': gen_ptr, 'struct': gen_struct, 'str': gen_str,
-            'uc': lambda r, d: gen_num(r, min(d, 2), UC_OPS), 'sh': lambda r, d: gen_num(r, min(d, 2), SH_OPS)}
+            'uc': lambda r, d: gen_num(r, min(d, 2), UC_OPS), 'sh': lambda r, d: gen_num(r, min(d, 2), SH_OPS),
+            'dbl': lambda r, d: gen_num(r, min(d, 2), DBL_OPS)}
     for rel in REL:
         for v in (UC_OPS[0], UC_OPS[-2], UC_OPS[-1]):
             trees.append(('uc', T(rel, v)))
         for v in (SH_OPS[0], SH_OPS[-1]):
             trees.append(('sh', T(rel, v)))
+        for v in DBL_OPS:
+            trees.append(('dbl', T(rel, v)))
+            trees.append(('dbl', T('not', T(rel, v))))
     for dom, cnt in n.items():
         for _ in range(cnt):
             trees.append((dom, gens[dom](rng, 3)))
@@ -444,7 +459,7 @@ def run(prop, tier, seed):
     v.coverage = dict(evaluations=comparisons, distinct_nontrivial=len(nontriv),
                       rule='one evaluation = one (matcher tree, value, application mode) comparison of the real matcher with the mathematical predicate; modes: param_matches on int / int* / unique_ptr / shared_ptr / struct / std::string / char const* (incl. null) / string_view sub-range of a longer buffer / std::string with an embedded NUL and as the parameter of a real mock call (accepted vs no-match report); distinct non-trivial = distinct tree that accepts some and rejects some values of its domain',
                       samples=samples, trees=len(trees), fixed_trees=fixed, random_trees=len(trees) - fixed,
-                      by_domain={d: sum(1 for x in trees if x[0] == d) for d in ('int', 'uc', 'sh', 'ptr', 'struct', 'str')},
+                      by_domain={d: sum(1 for x in trees if x[0] == d) for d in ('int', 'uc', 'sh', 'dbl', 'ptr', 'struct', 'str')},
                       exhaustive=False)
     v.assumptions = ['Python oracle gen_match.ev implements the mathematical predicates', 'ASan/UBSan catch a null dereference in *m / re directly']
     return v.finish()
